@@ -57,6 +57,14 @@ def Exc.pyName : Exc → String
   | .typeError => "TypeError"
   | .attributeError => "AttributeError"
 
+/-- outcomes of the modelled functions are comparable (used by `decide` in examples) -/
+instance {α : Type} [DecidableEq α] : DecidableEq (Except Exc α) := fun a b =>
+  match a, b with
+  | .ok x, .ok y => if h : x = y then isTrue (h ▸ rfl) else isFalse (fun h' => by cases h'; exact h rfl)
+  | .error x, .error y => if h : x = y then isTrue (h ▸ rfl) else isFalse (fun h' => by cases h'; exact h rfl)
+  | .ok _, .error _ => isFalse (fun h => by cases h)
+  | .error _, .ok _ => isFalse (fun h => by cases h)
+
 abbrev Bytes := List Nat
 
 /-! ### Modulation (enum regenerated from the tree) -/
